@@ -127,11 +127,14 @@ let handle (x : sexp) : (string * string) list =
   | L [A "c17"; A mode; s_x; parse_x; L [A "merged"; merged_x]; L [A "gen"; gen_x]; L [A "conv"; conv_x]; L (A "engine" :: eng_items); L (A "features" :: _)] ->
     let res = ref [] in
     let add st d = res := (st, d) :: !res in
-    (match parse_x with
-     | L [A "parse"; A "ok"] -> ()
-     | L (A "parse" :: A why :: _) -> add "error" ("harness: SDL does not parse to the generated tree: " ^ why)
-     | _ -> add "error" "harness: parse-check");
+    (* blk: the document has a schema definition; without one the model applies the default root operation type names *)
+    let blk = (match parse_x with
+     | L [A "parse"; A "ok"] -> true
+     | L [A "parse"; A "no-block"] -> false
+     | L (A "parse" :: A why :: _) -> add "error" ("harness: SDL does not parse to the generated tree: " ^ why); true
+     | _ -> add "error" "harness: parse-check"; true) in
     let s = schema_of s_x in
+    let merge_base = merge_base_doc blk and generate = generate_doc blk in
     (* --- merge --- *)
     (match merged_x with
      | L [A "err"; S m] -> add "error" ("merge failed in Go: " ^ m)
@@ -173,6 +176,8 @@ let handle (x : sexp) : (string * string) list =
           add "mismatch" (Printf.sprintf "corr:C17/convert impl=%s model=%s" is ms));
        (match cx with L (A "schema" :: _) -> impl_conv := Some (schema_of cx) | _ -> ()));
     (* --- spec checkers on the implementation's outputs --- *)
+    (* the schema the document describes: its declared roots, or the default ones when it has no schema definition *)
+    let s = described blk s in
     let wf = wf_schema s in
     let viol = List.map string_of_bytes (lossy_clauses s) in
     let vs = String.concat "," viol in
